@@ -38,8 +38,10 @@ PROGS = {
     "two-requested": dict(terms=[["neg", A], ["T", ["neg", A]]]),
     "concat": dict(terms=[["concat0", ["neg", A], ["slice1", B]]]),
     "cumsum": dict(terms=[["cumsum0", ["neg", Z]]]),
+    # every chunk of the intermediate is all fill value: 'all chunks present' must still mean 'fully computed'
+    "all-fill-chunks": dict(terms=[["neg", ["T", ["sub", A, A]]]]),
 }
-QUICK = ["chain", "diamond", "reduction-sum", "reduction-structured", "multi-output", "rechunk-multichunk", "zero-d", "store-new"]
+QUICK = ["chain", "diamond", "reduction-sum", "reduction-structured", "multi-output", "rechunk-multichunk", "zero-d", "store-new", "all-fill-chunks"]
 
 
 class Prepared:
@@ -60,9 +62,16 @@ class Prepared:
         self.optimize = optimize
         self.initial = self.world.snapshot()
         self.world.mutations.clear()
-        ex = ControlledExecutor(world=self.world)
+        w = self.world
+        ex = ControlledExecutor(world=w, on_task=lambda n, i, ph: w.record("task-end", "-", f"{n}/{i}", n) if ph == "after" else None)
         self.clean = [np.asarray(x) for x in cubed.compute(*self.arrs, executor=ex, optimize_graph=optimize)]
         self.log = list(self.world.mutations)
+        mut_seqs = [ev.seq for ev in self.world.log if ev.op in ("set", "delete")]
+        if len(mut_seqs) != len(self.log):
+            raise HarnessError("mutation log and event log disagree")
+        self.mut_seqs = mut_seqs
+        self.task_ends = [(ev.seq, ev.info) for ev in self.world.log if ev.op == "task-end"]  # (seq, op name)
+        self.tasks_per_op = Counter(n for _, n in self.task_ends)
         self.clean_ops = [(o.name, o.executed) for o in ex.ops]
         # task boundaries in the mutation log: index after each task's last mutation
         self.final = self.world.snapshot()
@@ -75,6 +84,12 @@ class Prepared:
         for ev in self.world.log:
             if ev.op in ("set", "delete") and ev.task is not None:
                 self.task_muts.setdefault(ev.task, []).append((ev.store, ev.key))
+
+    def finished_ops(self, k):
+        """ops all of whose tasks had ended before the (k+1)-th mutation of the clean run"""
+        limit = self.mut_seqs[k] if k < len(self.mut_seqs) else float("inf")
+        ended = Counter(n for seq, n in self.task_ends if seq < limit)
+        return {n for n, c in ended.items() if c == self.tasks_per_op[n]}
 
     def structured_in_plan(self, optimize):
         import cubed
@@ -233,6 +248,10 @@ def run_program(item):
                                     found.append(("recomputed-complete-array", f"op {n}: all outputs were complete at the crash point but it ran again"))
                                 if not ok and n not in executed:
                                     found.append(("skipped-incomplete-array", f"op {n}: an output was incomplete at the crash point but the op was skipped"))
+                            if desc[0] == "prefix":
+                                for n in p.finished_ops(desc[1]):
+                                    if n != "create-arrays" and n in comp and not comp[n][1] and n in executed:
+                                        found.append(("recomputed-complete-array", f"op {n}: every one of its tasks had finished before the crash point but it ran again on resume"))
                             if any(part for _, _, part in comp.values()):
                                 stats["partial_states"] += 1
                     for k, t in found:
